@@ -291,6 +291,55 @@ def main():
                 for r in m.get('reports', []):
                     print('    ', r)
         return
+    if a[0] == 'recheck':
+        # after a change of the machinery: the survivors that were reported must still be reported (checks only, no build)
+        j = 12
+        rels = [x for x in a[1:] if not x.startswith('-')]
+        if not rels:
+            rels = [json.load(open(os.path.join(OUT, f)))['file'] for f in sorted(os.listdir(OUT)) if f.endswith('.json')]
+        lost_all = 0
+        for rel in rels:
+            fp = os.path.join(OUT, rel.replace('/', '_') + '.json')
+            if not os.path.exists(fp):
+                continue
+            d = json.load(open(fp))
+            rc_, o_ = sh('git -C /repo diff --quiet %s HEAD -- %s' % (d.get('repo_head', 'HEAD'), rel))
+            if rc_ != 0:
+                print('%-40s scanned at %s, changed since: offsets stale, skipped' % (rel, d.get('repo_head')), flush=True)
+                continue
+            data = open(os.path.join('/repo', rel), 'rb').read()
+            muts = [m for m in d['mutants'] if m.get('outcome') == 'detected']
+            # the recorded offsets must still describe the recorded text
+            muts = [m for m in muts if m.get('old') is None or data[m['start']:m['end']].decode(errors='replace') == m['old']]
+            props = d.get('properties') or props_for(rel)
+
+            def job(m):
+                chk = tempfile.mkdtemp(prefix='mutscan-re-')
+                try:
+                    for dd in ('src', 'include', 'doc'):
+                        shutil.copytree(os.path.join('/repo', dd), os.path.join(chk, dd), symlinks=True)
+                    shutil.copytree('/repo/_build/include', os.path.join(chk, '_build_include'))
+                    open(os.path.join(chk, rel), 'wb').write(data[:m['start']] + m['new'].encode() + data[m['end']:])
+                    env = dict(os.environ, UFW_REPO=chk, UFWSA_EVID=os.path.join(chk, 'evid'), UFWSA_NO_CORPUS='1')
+                    rcs = {}
+                    for pid in (m.get('detected_by') or props):
+                        pr = subprocess.run([sys.executable, '-B', '-m', 'ufwsa.main', pid, '--tier', 'quick'], cwd=HERE, env=env,
+                                            capture_output=True, text=True, timeout=600)
+                        rcs[pid] = pr.returncode
+                    return m, rcs
+                finally:
+                    shutil.rmtree(chk, ignore_errors=True)
+            lost = []
+            with ThreadPoolExecutor(max_workers=j) as ex:
+                for m, rcs in ex.map(job, muts):
+                    if 1 not in rcs.values():
+                        lost.append((m, rcs))
+            print('%-40s previously reported %4d, still reported %4d' % (rel, len(muts), len(muts) - len(lost)), flush=True)
+            for m, rcs in lost:
+                print('   LOST %s %s line %s: %s  %s' % (m['id'], m['fn'], m['line'], m['desc'][:90], rcs))
+            lost_all += len(lost)
+        print('mutscan recheck: %d previously reported survivors are no longer reported' % lost_all)
+        return
     if a[0] == 'run':
         j, limit = 8, None
         rels = []
